@@ -8,6 +8,7 @@ import (
 	"testing"
 	"time"
 
+	"github.com/andydunstall/piko/pkg/log"
 	"github.com/andydunstall/piko/server/cluster"
 	"github.com/andydunstall/piko/server/config"
 
@@ -169,6 +170,48 @@ func TestRegressD4(t *testing.T) {
 			}
 			if !ok {
 				c.Fatalf("C18: after %s of its node the listener did not reconnect to the surviving node within %v", manner, 2*Deadline())
+			}
+		}
+	})
+}
+
+// D8 (fixed): an access-log response-header filter does not remove response trailers.
+func TestRegressD8(t *testing.T) {
+	vlib.SetRule("C08", "TestRegressD8", "fixed regression case of finding D8: the upstream answers with a body and the trailer X-Tr-A; the access log of the server proxy (Go SDK upstream) or of the agent (agent upstream) has a response-header allow list that does not name the trailer")
+	vlib.Fixed(t, "C08", false, func(c *vlib.Case) {
+		lists := log.AccessLogConfig{Level: "info"}
+		lists.ResponseHeaders.AllowList = []string{"content-type"}
+		for _, kind := range []string{"sdk-http", "agent-http"} {
+			cl, err := StartCluster(1, false, func(i int, conf *config.Config) {
+				if kind == "sdk-http" {
+					conf.Proxy.AccessLog = lists
+				}
+			})
+			if err != nil {
+				c.Harnessf("start cluster: %v", err)
+			}
+			opts := UpstreamOpts{}
+			if kind == "agent-http" {
+				opts.AccessLog = &lists
+			}
+			up, err := ConnectUpstream(context.Background(), cl.Nodes[0], "u0", "e1", kind, opts)
+			if err != nil {
+				cl.Stop()
+				c.Harnessf("connect: %v", err)
+			}
+			up.Handler = func(u *Up, w http.ResponseWriter, r *http.Request, rec *Recorded) {
+				w.Header().Set("Trailer", "X-Tr-A")
+				w.WriteHeader(200)
+				_, _ = w.Write([]byte("body"))
+				w.Header().Set("X-Tr-A", "sum=abc")
+			}
+			Eventually(Deadline(), func() bool { return cl.Nodes[0].Srv.ClusterState().LocalEndpointListeners("e1") == 1 })
+			res := Get(cl.Nodes[0], "e1", "host", "", nil)
+			up.Disconnect()
+			cl.Stop()
+			c.Stepf("%s: status=%d body=%q trailer=%v err=%v", kind, res.Status, res.Body, res.Trailer, res.Err)
+			if res.Err != nil || res.Status != 200 || string(res.Body) != "body" || res.Trailer.Get("X-Tr-A") != "sum=abc" {
+				c.Fatalf("C08: upstream (%s) answered 200 \"body\" with trailer X-Tr-A: sum=abc; the client received status=%d body=%q trailers=%v err=%v", kind, res.Status, res.Body, res.Trailer, res.Err)
 			}
 		}
 	})
